@@ -171,7 +171,7 @@ func runProperty(o *Options, pc *PropertyConfig) int {
 		smtDir = o.KeepSMT
 		os.MkdirAll(smtDir, 0o755)
 	}
-	timeoutMs := 20000
+	timeoutMs := 15000
 	if o.Tier == "thorough" {
 		timeoutMs = 120000
 	}
@@ -228,6 +228,9 @@ func runProperty(o *Options, pc *PropertyConfig) int {
 			ex.verifyFunc(fn, c)
 		}
 		for _, ob := range ex.obls {
+			if hasProp(ob.Props, "slow") && o.Tier != "thorough" {
+				continue // clauses tagged slow are discharged in the thorough tier only (never claimed by the quick check)
+			}
 			if hasProp(ob.Props, o.Property) || ob.Kind == "vacuity" {
 				ob.Name = ob.Name + archSuffix(pc, arch)
 				ar.obls = append(ar.obls, ob)
@@ -284,6 +287,31 @@ func runProperty(o *Options, pc *PropertyConfig) int {
 		}(i, j)
 	}
 	wg.Wait()
+	// second chance for undecided queries (timeouts under machine load must not become alarms):
+	// re-run them a few at a time with a four-fold time limit
+	{
+		var again []job
+		for _, j := range jobs {
+			if j.ob.Kind != "vacuity" && j.ob.Result.Status != "unsat" && j.ob.Result.Status != "sat" {
+				again = append(again, j)
+			}
+		}
+		sem2 := make(chan struct{}, 4)
+		var wg2 sync.WaitGroup
+		for i, j := range again {
+			wg2.Add(1)
+			sem2 <- struct{}{}
+			go func(i int, j job) {
+				defer wg2.Done()
+				defer func() { <-sem2 }()
+				r := solve(smtDir, fmt.Sprintf("retry_%04d", i), j.ob.Query, nil, timeoutMs*4, false)
+				if r.Status == "unsat" || r.Status == "sat" {
+					j.ob.Result = r
+				}
+			}(i, j)
+		}
+		wg2.Wait()
+	}
 
 	// aggregate by obligation name
 	groups := map[string]*groupResult{}
@@ -550,11 +578,11 @@ func recheckUnderExcuse(ar *archRun, g *groupResult, kf KnownFinding, dir string
 		if ob.Result.Status == "unsat" {
 			continue
 		}
-		term, err := evalExcuse(ar.ex, ob, node)
+		term, extra, err := evalExcuse(ar.ex, ob, node)
 		if err != nil {
 			return false, err.Error()
 		}
-		q := ar.ex.ctx.snapshot().query(strings.Join(ob.lines, "\n") + "\n(assert (not " + term + "))\n(assert (not " + ob.goal + "))\n")
+		q := ar.ex.ctx.snapshot().query(strings.Join(ob.lines, "\n") + "\n" + strings.Join(extra, "\n") + "\n(assert (not " + term + "))\n(assert (not " + ob.goal + "))\n")
 		r := solve(dir, fmt.Sprintf("excuse_%d_%s", i, ob.Name), q, nil, timeoutMs, false)
 		if r.Status != "unsat" {
 			return false, fmt.Sprintf("still %s outside the excused class", r.Status)
@@ -563,7 +591,7 @@ func recheckUnderExcuse(ar *archRun, g *groupResult, kf KnownFinding, dir string
 	return true, ""
 }
 
-func evalExcuse(ex *Exec, ob *Obligation, node *Node) (t string, err error) {
+func evalExcuse(ex *Exec, ob *Obligation, node *Node) (t string, extra []string, err error) {
 	defer func() {
 		if r := recover(); r != nil {
 			err = fmt.Errorf("excuse: %v", r)
@@ -585,5 +613,6 @@ func evalExcuse(ex *Exec, ob *Obligation, node *Node) (t string, err error) {
 	for k, v := range ob.extraVars {
 		env.vars[k] = v
 	}
-	return env.evalBool(node), nil
+	t = env.evalBool(node)
+	return t, st.lines, nil
 }
